@@ -71,12 +71,12 @@ def propagate(data, d, medium_index=None, illum_wavelen=None, cfsp=0,
     `holopy` is agnostic to units, and the propagation result will be
     correct as long as the distance and wavelength are in the same units.
     """
+    data = update_metadata(
+        data, medium_index=medium_index, illum_wavelen=illum_wavelen)
+
     if np.ndim(d) == 0 and d == 0:
         # Propagating no distance has no effect
         return data
-
-    data = update_metadata(
-        data, medium_index=medium_index, illum_wavelen=illum_wavelen)
 
     if data.medium_index is None or data.illum_wavelen is None:
         raise MissingParameter("refractive index and wavelength")
